@@ -93,8 +93,7 @@ def compare(rec, clause, name_a, name_b, spec_a, spec_b, table, va, vb, info, re
     rec.count('value_vectors_compared', len(table.groups))
     for g in np.nonzero(rows_bad)[0][:1]:
         grp = table.describe_group(int(g))
-        avail_tag = 'avail=' + ('full' if all(grp['avail']) else 'partial')
-        key = f'{ID}|{clause}|{name_a}~{name_b}|{info["shape"]}|{avail_tag}'
+        key = f'{ID}|{clause}|{name_a}~{name_b}|{info["shape"].split(",")[0]}'
         case = dict(part='pair', clause=clause, a=spec_a, b=spec_b, names=[name_a, name_b], group=grp, info=info)
         rec.violation(key, f'{clause}: {name_a} = {va[g].tolist()} but {name_b} = {vb[g].tolist()} at u={grp["u"]} '
                            f'avail={grp["avail"]} (alts {table.alts}, {info})', case,
